@@ -107,6 +107,33 @@ def _int_result_type(inputs):
     return dt
 
 
+def _meta_dtype(decl):
+    """object dtype that remembers the declared integer type: repository
+    code that passes `x.dtype` on (np.sum(.., dtype=x.dtype),
+    y.astype(x.dtype), np.zeros(n, dtype=x.dtype)) hands this object to
+    the shim, which recovers the declared type from it"""
+    return _np.dtype(object, metadata={'decl': str(_np.dtype(decl))})
+
+
+def declared(dtype):
+    """the declared type behind a dtype object made by _meta_dtype (any
+    other dtype is returned unchanged)"""
+    if isinstance(dtype, _np.dtype) and dtype.kind == 'O' and \
+            dtype.metadata and 'decl' in dtype.metadata:
+        return _np.dtype(dtype.metadata['decl'])
+    return dtype
+
+
+def tagged(a, decl):
+    """`a` (an SArr) carrying `decl` both as attribute and in its dtype"""
+    if decl is None or _np.dtype(decl).kind not in 'iu':
+        a.decl = None if decl is None else _np.dtype(decl)
+        return a
+    a = a.view(_meta_dtype(decl))
+    a.decl = _np.dtype(decl)
+    return a
+
+
 class SArr(_np.ndarray):
     """object ndarray holding symx scalars (and plain numbers)."""
     decl = None     # declared dtype (for no-wrap-around obligations)
@@ -150,7 +177,7 @@ class SArr(_np.ndarray):
         r = getattr(ufunc, method)(*ins, **kwargs)
         if isinstance(r, _np.ndarray) and r.dtype == object \
                 and not isinstance(r, SArr):
-            r = r.view(SArr)
+            r = r.view(_np.dtype(object)).view(SArr)
             r.decl = self.decl if ufunc in _KEEP_DECL else None
         if method == '__call__' and ufunc in _INT_ARITH and \
                 isinstance(r, SArr):
@@ -160,7 +187,7 @@ class SArr(_np.ndarray):
                 # integer arrays combined with Python ints, which numpy
                 # treats as "weak"): the result has that type and must
                 # fit it
-                r.decl = dt
+                r = tagged(r, dt)
                 if core.CUR is not None and core.CUR.mode == 'sym':
                     info = _np.iinfo(dt)
                     for x in r.flat:
@@ -190,6 +217,8 @@ class SArr(_np.ndarray):
         return super().__setitem__(_fixidx(k), v)
 
     def astype(self, dtype, *a, **k):
+        via_meta = declared(dtype) is not dtype
+        dtype = declared(dtype)
         kd = _kind(dtype)
         if kd == 'O':
             return self.copy()
@@ -199,7 +228,20 @@ class SArr(_np.ndarray):
             out[idx] = _cast(x, kd)
         out = out.view(SArr)
         if kd in 'iu':
-            out.decl = _np.dtype(dtype)
+            dt = _np.dtype(dtype)
+            if via_meta and dt.itemsize < 8 and core.CUR is not None \
+                    and core.CUR.mode == 'sym':
+                # "y.astype(x.dtype)" with x of a narrow integer type:
+                # numpy wraps silently; the value must fit
+                info = _np.iinfo(dt)
+                for x in out.flat:
+                    if isinstance(x, Sym) and not isinstance(x, SBool):
+                        core.CUR.check(
+                            core.And(x >= int(info.min),
+                                     x <= int(info.max)),
+                            f"value cast to {dt} (the type of another "
+                            "array) fits that type")
+            out = tagged(out, dt)
         return out
 
     def __bool__(self):
@@ -278,8 +320,7 @@ def sarr(obj, decl=None):
         if isinstance(obj, (list, tuple)) and len(obj) == 0:
             a = _np.empty((0,), dtype=object)
     a = a.view(SArr)
-    a.decl = _np.dtype(decl) if decl is not None else None
-    return a
+    return tagged(a, decl)
 
 
 class RngModel:
@@ -361,6 +402,7 @@ class NpShim:
 
     # ---- creation: object dtype so that symbolic stores are possible
     def _new(self, shape, fillv, dtype):
+        dtype = declared(dtype)
         if isinstance(shape, Sym):
             shape = int(shape)
         elif isinstance(shape, (tuple, list)):
@@ -371,7 +413,7 @@ class NpShim:
         a = _np.empty(shape, dtype=object)
         a.fill(_cast(fillv, kd) if kd in 'iufb' else fillv)
         a = a.view(SArr)
-        a.decl = _np.dtype(dtype) if kd in 'iu' else None
+        a = tagged(a, _np.dtype(dtype) if kd in 'iu' else None)
         a.fkind = 'f' if kd == 'f' else None
         return a
 
@@ -423,7 +465,7 @@ class NpShim:
         if isinstance(a, _np.ndarray) and not isinstance(a, SArr) \
                 and a.dtype.kind in 'biuf':
             r = a.astype(object).view(SArr)
-            r.decl = a.dtype if a.dtype.kind in 'iu' else None
+            r = tagged(r, a.dtype if a.dtype.kind in 'iu' else None)
             return r
         return _np.copy(a, subok=True)
 
@@ -438,6 +480,8 @@ class NpShim:
         means that declared type (the object dtype of the stand-in array
         is not what the real array has)"""
         decl = getattr(a, 'decl', None)
+        if dtype is not None:
+            dtype = declared(dtype)
         if dtype is not None and _np.dtype(dtype) == object and \
                 decl is not None:
             dtype = decl
@@ -475,8 +519,7 @@ class NpShim:
             for idx in _np.ndindex(r.shape):
                 out[idx] = wrap(r[idx])
             out = out.view(SArr)
-            out.decl = dt
-            return out
+            return tagged(out, dt)
         return wrap(r)
 
     def where(self, *args):
